@@ -650,7 +650,7 @@ def main(argv=None):
     ap.add_argument("property")
     ap.add_argument("--tier", default=os.environ.get("VERIF_TIER", "quick"), choices=["quick", "thorough"])
     ap.add_argument("--replay")
-    ap.add_argument("--jobs-filter", default=None, help="substring filter on job names (development)")
+    ap.add_argument("--jobs-filter", default=None, help="regex filter on job names (development)")
     a = ap.parse_args(argv)
     sys.path.insert(0, VERIF)
     prop = importlib.import_module("props." + a.property.lower())
@@ -659,7 +659,9 @@ def main(argv=None):
         return replay(prop, a.replay)
     if a.jobs_filter:
         orig = prop.jobs
-        prop.jobs = lambda tier: [j for j in orig(tier) if a.jobs_filter in j["name"]]
+        import re as _re
+        _pat = _re.compile(a.jobs_filter)
+        prop.jobs = lambda tier: [j for j in orig(tier) if _pat.search(j["name"])]
     run = execute(prop, a.tier, seed)
     ev = write_evidence(prop, run, a.tier, seed)
     cov = ev["coverage"]
